@@ -16,7 +16,7 @@ worker() {
   i=0
   for pid in "${props[@]}"; do
     i=$((i+1)); [ $(( (i-1) % J )) -eq "$w" ] || continue
-    for s in $(ls seeded | grep "^$pid-" | grep -E "${SEEDED_FILTER:-.}"); do
+    for s in $(ls seeded | grep "^$pid-" | grep -E -e "${SEEDED_FILTER:-.}"); do
       [ -f "seeded/$s/patch.diff" ] || continue
       if ! git -C "$wt" apply --check "$PWD/seeded/$s/patch.diff" 2>/dev/null; then echo "$s: patch does not apply to HEAD" >> "$out/$w"; continue; fi
       git -C "$wt" apply "$PWD/seeded/$s/patch.diff"
